@@ -24,6 +24,17 @@ Theorem C04_redirect : forall resp relay alg sig, alg <> [] ->
   verifier_octets (BuildRedirectQuery resp relay alg sig) = Some (BuildRedirectQuery resp relay alg []).
 Proof. exact redirect_octets. Qed.
 
+(** ... on the URL actually sent, consumer URL included: sendBackResponse appends the query to the consumer URL with "?" or,
+    when that URL already has a query, "&"; a verifier reads the whole query.  When the consumer URL's own query names none
+    of SAMLResponse, RelayState, SigAlg the reconstructed octets are the signed ones *)
+Theorem C04_redirect_url : forall acs resp relay alg sig, alg <> [] -> acs_query_neutral acs ->
+  verifier_octets (after_qmark (sent_url acs (BuildRedirectQuery resp relay alg sig))) = Some (BuildRedirectQuery resp relay alg []).
+Proof. exact redirect_octets_url. Qed.
+(** ... and when it does name one, they need not be (known finding F-04d, reproduced on the implementation) *)
+Theorem C04_redirect_url_refuted : exists acs resp alg sig,
+  verifier_octets (after_qmark (sent_url acs (BuildRedirectQuery resp [] alg sig))) <> Some (BuildRedirectQuery resp [] alg []).
+Proof. exact redirect_octets_url_refuted. Qed.
+
 (** which Success replies carry a signature: POST form -> enveloped; redirect -> detached in the query; and the body
     delivery (empty consumer URL) carries whatever the stored binding selected *)
 Notation run_cb form_ok form_id lookup_req app_entity userinfo cert_ok sign_ok :=
@@ -83,3 +94,5 @@ Print Assumptions C04_redirect.
 Print Assumptions C04_success_signature.
 Print Assumptions C04_never_unsigned_refuted.
 Print Assumptions C04_signature_kind_from_source.
+Print Assumptions C04_redirect_url.
+Print Assumptions C04_redirect_url_refuted.
